@@ -7,7 +7,8 @@ PROP_V = ["Props/Properties_C04.v", "Props/Properties_C01x.v", "Props/Properties
 GEN_MODULES = ["Consts", "Sites"]
 FLOW_FILES = ['cv.c', 'sem_wait.c', 'mu.c', 'wait.c']
 REPLAY_HINT = "VRT_SEED=<seed> VRT_MODE=<m> _work/h/cv_mix (or waitn_mix)"
-PARTIAL = ["after the F15 repair: C04_waiting_bit_has_a_waiter / C04_waiting_bit_exact (CvModel: at wake_waiters' release MU_WAITING is left set only if a transferred record is on the mutex queue or the environment reported a plain locker queued; the replayer derives that choice from the trace and fails on a cleared bit over a non-empty queue or a kept bit over an empty one; cv_mix MODE 7 exercises the clearing branch), C04_abstract_mutex_lock_field (the lock field of the abstract mutex word counts the model's holders), C04_mu_spin_section; the environment actor MuDeq is refused while a wake_waiters thread owns the mutex spinlock (the real dequeue needs that spinlock)",
+PARTIAL = ["after the F16 repair: C04_transferred_is_native (CvModel, every reachable world: whatever wake_waiters moves to the mutex queue is a native waiter associated with the mutex -- never a generic-interface waiter, which is woken directly), C04_old_xfer_moves_generic (the transfer loop of the code before f28c99f moves the generic record onto the mutex queue in a run with a native waiter first, a generic one behind it and one broadcast under the write lock; the repaired model wakes it); the replayer follows runs that mix native and generic waiters (cv_mix MODE 5 / 6 with VRT_MIXLOCKS=1) and fails if the implementation moves a record the model leaves on its wake list",
+           "after the F15 repair: C04_waiting_bit_has_a_waiter / C04_waiting_bit_exact (CvModel: at wake_waiters' release MU_WAITING is left set only if a transferred record is on the mutex queue or the environment reported a plain locker queued; the replayer derives that choice from the trace and fails on a cleared bit over a non-empty queue or a kept bit over an empty one; cv_mix MODE 7 exercises the clearing branch), C04_abstract_mutex_lock_field (the lock field of the abstract mutex word counts the model's holders), C04_mu_spin_section; the environment actor MuDeq is refused while a wake_waiters thread owns the mutex spinlock (the real dequeue needs that spinlock)",
            "C04_no_lost_wakeup(_waitn): a waiter at its semaphore wait whose record a waker took is still on that waker's private list, or on the abstract "
            "mutex's queue / wake list, or has waiting = 0 with a post available, its waker at the V for it, or a post owed by the abstract mutex.  C04_no_stuck / "
            "C04_no_stuck_waitn are proved for quiescent worlds in which the ABSTRACT mutex holds no transferred waiter and owes no post (muq = mwake = [], owed = 0); "
@@ -44,8 +45,8 @@ TRUSTED_BASE = ["CvModel's abstract mutex couples the unlocker's store waiting =
 def run(tier, seed):
     import mu_common
     res = {"violations": [], "broken": [], "coverage": {}}
-    tie = mu_common.tie(res, "cv_replay", "CvModel", [("cv_mix", {"VRT_MODE": m}, 150, 1500) for m in (0, 1, 2, 3)] + [("cv_mix", {"VRT_MODE": 7}, 100, 1000)], tier, seed)
-    specs = [("cv_mix", {"VRT_MODE": 0}, 2000, 40000), ("cv_mix", {"VRT_MODE": 1}, 1500, 30000), ("cv_mix", {"VRT_MODE": 2}, 1000, 20000),
+    tie = mu_common.tie(res, "cv_replay", "CvModel", [("cv_mix", {"VRT_MODE": m}, 150, 1500) for m in (0, 1, 2, 3)] + [("cv_mix", {"VRT_MODE": 7}, 100, 1000), ("cv_mix", {"VRT_MODE": 5, "VRT_MIXLOCKS": 1}, 100, 1000), ("cv_mix", {"VRT_MODE": 6, "VRT_MIXLOCKS": 1}, 100, 1000)], tier, seed)
+    specs = [("cv_mixlocks", {}, 800, 15000), ("cv_mix", {"VRT_MODE": 0}, 2000, 40000), ("cv_mix", {"VRT_MODE": 1}, 1500, 30000), ("cv_mix", {"VRT_MODE": 2}, 1000, 20000),
              ("cv_mix", {"VRT_MODE": 3}, 1500, 30000), ("cv_mix", {"VRT_MODE": 7}, 1000, 20000), ("cv_mix", {"VRT_MODE": 4}, 3000, 60000), ("waitn_mix", {"VRT_KIND": 2}, 1500, 30000),
              ("cv_mix", {"VRT_MODE": 0}, 800, 15000, "binary"), ("cv_mix", {"VRT_PLAINPM": 40}, 1500, 30000), ("muwait_mix", {"VRT_MODE": 3}, 2500, 50000),
              # MODE 5: every waiter (writer / reader / generic-lock) queued, then ONE broadcast (all must return) or ONE signal (>= 1, all
@@ -58,7 +59,7 @@ def run(tier, seed):
                    "under a read lock, and the single-waiter mode in which a wake-up issued in time must be reported as 0 whatever the clock "
                    "and the note do afterwards; waitn_mix on cvs; non-trivial = runs with semaphore sleeps")
     tiex = mu_common.tie(res, "muxfer_replay", "MuXferModel", [("cv_mix", {"VRT_MODE": m}, 80, 800) for m in (0, 1, 2, 3, 4, 7)] +
-                         [("cv_mix", {"VRT_MODE": m, "VRT_GENERIC": 0}, 60, 600) for m in (5, 6)], tier, seed)
+                         [("cv_mix", {"VRT_MODE": m, "VRT_GENERIC": 0, "VRT_MIXLOCKS": 0}, 60, 600) for m in (5, 6)], tier, seed)
     for k in ("traces_validated_against_impl", "lockstep_model_steps"):
         tie[k] = tie.get(k, 0) + tiex.get(k, 0)
     tie["model_sites_hit_muxfer"] = tiex.get("model_sites_hit", {})
